@@ -68,6 +68,29 @@ fn pre_states() -> Vec<(Vec<(u8, Vec<W>, Vec<W>)>, bool)> {
     vec![(vec![], false), (populated.clone(), false), (populated, true)]
 }
 
+/// States that answer reads of unknown contracts with a short (empty) answer. NOT part of C03's
+/// run: such a state breaks the stated assumption 'a range read is the iteration of single
+/// reads', so the overlay reference has no defined expectation for it (the implementation passes
+/// the short answer through for unmutated contracts and pads per key for mutated ones). The
+/// totality side of it is exercised by C06.
+#[allow(dead_code)]
+fn short_state_cases(mut f: impl FnMut(u64, CkCase)) {
+    let mut i = 9_000_000u64;
+    for op in [2u8, 3, 0, 1] {
+        for key in [vec![0], vec![1]] {
+            for count in [1, 2, 3] {
+                for declared in [vec![(vec![1], vec![7])], vec![(vec![0], vec![7]), (vec![2], vec![8])], vec![]] {
+                    for p in placements(Role::Probe { op, ext: 0xC1, key: key.clone(), count }).into_iter().take(3) {
+                        i += 1;
+                        // the pre-state only knows contract C3: C1 is "freshly deployed"
+                        f(i, CkCase { preds: vec![p], sols: vec![SolCase { pred: 0, contract: 0xC1, data: vec![], mutations: declared.clone() }], pre: vec![(0xC3, vec![0], vec![1])], strict: false, short: true, collect_all: false });
+                    }
+                }
+            }
+        }
+    }
+}
+
 fn declared_menu() -> Vec<Vec<(Vec<W>, Vec<W>)>> {
     vec![
         vec![],
@@ -114,7 +137,7 @@ fn cases(tier: Tier, mut f: impl FnMut(u64, CkCase)) {
                                                 SolCase { pred: 1, contract: 0xC2, data: vec![], mutations: vec![(vec![0], vec![4])] },
                                             ],
                                             pre: pre.clone(),
-                                            strict,
+                                            strict, short: false,
                                             collect_all: false,
                                         },
                                     );
@@ -136,7 +159,7 @@ fn cases(tier: Tier, mut f: impl FnMut(u64, CkCase)) {
             PredCase { nodes: vec![(0, Role::Tracer), (l, leaf.clone())], edges: vec![1] },
             PredCase { nodes: vec![(l, leaf.clone()), (0, Role::Tracer)], edges: vec![0] },
         ] {
-            f(i, CkCase { preds: vec![p], sols: vec![SolCase { pred: 0, contract: 0xC1, data: vec![], mutations: declared.clone() }], pre: vec![(0xC1, vec![0], vec![5])], strict: false, collect_all: false });
+            f(i, CkCase { preds: vec![p], sols: vec![SolCase { pred: 0, contract: 0xC1, data: vec![], mutations: declared.clone() }], pre: vec![(0xC1, vec![0], vec![5])], strict: false, short: false, collect_all: false });
         }
     }
     // two nodes sharing ONE post-reading program (same content address) under different parents
@@ -148,11 +171,11 @@ fn cases(tier: Tier, mut f: impl FnMut(u64, CkCase)) {
                 let l = u16::MAX;
                 // 0 -> 2, 1 -> 3 ; nodes 2 and 3 share the program
                 let p = PredCase { nodes: vec![(0, Role::Tracer), (1, Role::Tracer), (l, shared.clone()), (l, shared.clone())], edges: vec![2, 3] };
-                f(i, CkCase { preds: vec![p], sols: vec![SolCase { pred: 0, contract: 0xC1, data: vec![], mutations: declared.clone() }], pre: pre_states()[1].0.clone(), strict: false, collect_all: true });
+                f(i, CkCase { preds: vec![p], sols: vec![SolCase { pred: 0, contract: 0xC1, data: vec![], mutations: declared.clone() }], pre: pre_states()[1].0.clone(), strict: false, short: false, collect_all: true });
                 i += 1;
                 // the shared program at a root and at a leaf below a plain root
                 let p = PredCase { nodes: vec![(l, shared.clone()), (0, Role::Tracer), (l, shared)], edges: vec![2] };
-                f(i, CkCase { preds: vec![p], sols: vec![SolCase { pred: 0, contract: 0xC1, data: vec![], mutations: declared.clone() }], pre: pre_states()[1].0.clone(), strict: false, collect_all: true });
+                f(i, CkCase { preds: vec![p], sols: vec![SolCase { pred: 0, contract: 0xC1, data: vec![], mutations: declared.clone() }], pre: pre_states()[1].0.clone(), strict: false, short: false, collect_all: true });
             }
         }
     }
@@ -167,7 +190,7 @@ fn cases(tier: Tier, mut f: impl FnMut(u64, CkCase)) {
                     let b = Role::Probe { op: opb, ext: 0xC1, key: key.clone(), count: cb };
                     let both = PredCase { nodes: vec![(u16::MAX, a.clone()), (u16::MAX, b.clone())], edges: vec![] };
                     let pre = pre_states()[1].0.clone();
-                    f(i, CkCase { preds: vec![both], sols: vec![SolCase { pred: 0, contract: 0xC1, data: vec![], mutations: declared.clone() }], pre: pre.clone(), strict: false, collect_all: true });
+                    f(i, CkCase { preds: vec![both], sols: vec![SolCase { pred: 0, contract: 0xC1, data: vec![], mutations: declared.clone() }], pre: pre.clone(), strict: false, short: false, collect_all: true });
                     i += 1;
                     let pa = PredCase { nodes: vec![(u16::MAX, a)], edges: vec![] };
                     let pb = PredCase { nodes: vec![(u16::MAX, b)], edges: vec![] };
@@ -180,7 +203,7 @@ fn cases(tier: Tier, mut f: impl FnMut(u64, CkCase)) {
                                 SolCase { pred: 1, contract: 0xC1, data: vec![], mutations: vec![] },
                             ],
                             pre,
-                            strict: false,
+                            strict: false, short: false,
                             collect_all: false,
                         },
                     );
@@ -207,7 +230,7 @@ fn cases(tier: Tier, mut f: impl FnMut(u64, CkCase)) {
                                 preds: vec![p],
                                 sols: vec![SolCase { pred: 0, contract: 0xC1, data: vec![], mutations: declared.clone() }],
                                 pre: pre_states()[1].0.clone(),
-                                strict: false,
+                                strict: false, short: false,
                                 collect_all: true,
                             },
                         );
